@@ -321,13 +321,10 @@ class Part(object):
         divs_per_beat = self.inv_beat_map(
             1 + self.beat_map(0)
         )  # find the divs per beat in the first measure
-        if (
-            measures[0][1] - measures[0][0]
-            < self.time_signature_map(0)[0] * divs_per_beat
-        ):
-            measures[0][0] = measures[0][1] - np.round(
-                self.time_signature_map(0)[0] * divs_per_beat
-            )
+        # number of (notated or musical) beats per measure, matching the beat map
+        beats = self.time_signature_map(0)[2 if self._use_musical_beat else 0]
+        if measures[0][1] - measures[0][0] < beats * divs_per_beat:
+            measures[0][0] = measures[0][1] - np.round(beats * divs_per_beat)
 
         if len(measures) == 0:  # no measures in the piece
             # default only one measure spanning the entire timeline
@@ -380,13 +377,10 @@ class Part(object):
         divs_per_beat = self.inv_beat_map(
             1 + self.beat_map(0)
         )  # find the divs per beat in the first measure
-        if (
-            measures[0][1] - measures[0][0]
-            < self.time_signature_map(0)[0] * divs_per_beat
-        ):
-            measures[0][0] = measures[0][1] - np.round(
-                self.time_signature_map(0)[0] * divs_per_beat
-            )
+        # number of (notated or musical) beats per measure, matching the beat map
+        beats = self.time_signature_map(0)[2 if self._use_musical_beat else 0]
+        if measures[0][1] - measures[0][0] < beats * divs_per_beat:
+            measures[0][0] = measures[0][1] - np.round(beats * divs_per_beat)
 
         if len(measures) == 0:  # no measures in the piece
             # default only one measure spanning the entire timeline
